@@ -781,6 +781,16 @@ func crossCheck(n *chainx.Node, s *tokState, probes []util.Uint160) error {
 			return nil
 		}, "getAccountState", h)
 	}
+	for _, h := range probes {
+		if _, ok := s.NEO[h]; !ok {
+			ask(nativehashes.NeoToken, "NEO.getAccountState("+h.StringLE()[:8]+")", func(it stackitem.Item) error {
+				if it.Type() != stackitem.AnyT {
+					return fmt.Errorf("no decoded item, invocation returns %s", it.Type())
+				}
+				return nil
+			}, "getAccountState", h)
+		}
+	}
 	depAccs := map[util.Uint160]bool{}
 	for h := range s.Deposits {
 		depAccs[h] = true
@@ -793,7 +803,11 @@ func crossCheck(n *chainx.Node, s *tokState, probes []util.Uint160) error {
 		dl = append(dl, h)
 	}
 	sort.Slice(dl, func(i, j int) bool { return dl[i].Less(dl[j]) })
+	var nscript []byte
+	var nqs []q
 	if bc.GetContractState(nativehashes.Notary) != nil {
+		mainScript, mainQs := script, qs
+		script, qs = nil, nil
 		for _, h := range dl {
 			amt, till := new(big.Int), uint32(0)
 			if d := s.Deposits[h]; d != nil {
@@ -802,6 +816,8 @@ func crossCheck(n *chainx.Node, s *tokState, probes []util.Uint160) error {
 			ask(nativehashes.Notary, "Notary.balanceOf("+h.StringLE()[:8]+")", wantInt(amt), "balanceOf", h)
 			ask(nativehashes.Notary, "Notary.expirationOf("+h.StringLE()[:8]+")", wantInt(big.NewInt(int64(till))), "expirationOf", h)
 		}
+		nscript, nqs = script, qs
+		script, qs = mainScript, mainQs
 	}
 	for _, h := range probes {
 		if _, ok := s.Deposits[h]; !ok {
@@ -811,28 +827,43 @@ func crossCheck(n *chainx.Node, s *tokState, probes []util.Uint160) error {
 		}
 	}
 	// The invocation runs "in" the top block: a fake next block could sit on a
-	// hardfork boundary where the stored manifests are not yet updated.
+	// hardfork boundary where the stored manifests are not yet updated. The
+	// Notary questions are the exception: in the block that deploys Notary the
+	// contract is not callable yet, so they run in the (fake) next block - the
+	// families have no hardfork after the one that activates Notary.
 	top, err := bc.GetBlock(bc.CurrentBlockHash())
 	if err != nil {
 		return fmt.Errorf("top block: %w", err)
 	}
-	ic, err := bc.GetTestVM(trigger.Application, nil, top)
-	if err != nil {
-		return fmt.Errorf("test vm: %w", err)
-	}
-	defer ic.Finalize()
-	ic.VM.LoadWithFlags(script, callflag.ReadOnly)
-	if err := ic.VM.Run(); err != nil {
-		return fmt.Errorf("test invocation: %w", err)
-	}
-	st := ic.VM.Estack().ToArray()
-	if len(st) != len(qs) {
-		return fmt.Errorf("test invocation returned %d items, want %d", len(st), len(qs))
-	}
-	for i, it := range st {
-		if err := qs[i].check(it); err != nil {
-			return fmt.Errorf("%s: %w", qs[i].name, err)
+	run := func(script []byte, qs []q, b *block.Block) error {
+		if len(qs) == 0 {
+			return nil
 		}
+		ic, err := bc.GetTestVM(trigger.Application, nil, b)
+		if err != nil {
+			return fmt.Errorf("test vm: %w", err)
+		}
+		defer ic.Finalize()
+		ic.VM.LoadWithFlags(script, callflag.ReadOnly)
+		if err := ic.VM.Run(); err != nil {
+			return fmt.Errorf("test invocation: %w", err)
+		}
+		st := ic.VM.Estack().ToArray()
+		if len(st) != len(qs) {
+			return fmt.Errorf("test invocation returned %d items, want %d", len(st), len(qs))
+		}
+		for i, it := range st {
+			if err := qs[i].check(it); err != nil {
+				return fmt.Errorf("%s: %w", qs[i].name, err)
+			}
+		}
+		return nil
+	}
+	if err := run(script, qs, top); err != nil {
+		return err
+	}
+	if err := run(nscript, nqs, nil); err != nil {
+		return err
 	}
 	return nil
 }
